@@ -4,6 +4,8 @@ import (
 	"crypto/tls"
 	"net"
 	"time"
+
+	"github.com/influxdata/influxdb/pkg/verifhook"
 )
 
 // TLSConfig returns a TLS config.
@@ -46,6 +48,11 @@ func ListenTLS(network, address string, tlsConfig *tls.Config) (net.Listener, er
 
 // DialTLS connects to a remote mux listener with a given tls.
 func DialTLS(network, address string, tlsConfig *tls.Config) (net.Conn, error) {
+	if verifhook.Enabled {
+		if conn, err, ok := verifhook.Dial(network, address, 0); ok {
+			return conn, err
+		}
+	}
 	if tlsConfig != nil {
 		return tls.Dial(network, address, tlsConfig)
 	}
@@ -54,6 +61,11 @@ func DialTLS(network, address string, tlsConfig *tls.Config) (net.Conn, error) {
 
 // DialTLSTimeout acts like DialTLS but takes a timeout.
 func DialTLSTimeout(network, address string, tlsConfig *tls.Config, timeout time.Duration) (net.Conn, error) {
+	if verifhook.Enabled {
+		if conn, err, ok := verifhook.Dial(network, address, timeout); ok {
+			return conn, err
+		}
+	}
 	if tlsConfig != nil {
 		return tls.DialWithDialer(&net.Dialer{Timeout: timeout}, network, address, tlsConfig)
 	}
